@@ -25,7 +25,7 @@ CLAIMS = {
  "C10": ("TLC generates every layout of initialized ticks over boundary slots of the three-array window (PackagingModel); the harness replays each in three encodings under nine packagings; "
          "TLC validates each recorded swap against the path predicate of the spec (crossed = initialized ticks between start and end tick over all ticks of the pool, once, in order, "
          "net applied, no step jumps a tick) and the packaging-invariance / fail-rather-than-skip / foreign-array predicates; toy instance: crossing rules compose (LiqSum, TickSums)",
-         "quick samples 240 layouts; thorough runs all 4764 x 8 seeds", "4 C10"),
+         "quick samples 240 layouts; thorough runs every one of the 4764 layouts once (partitioned over 12 shards)", "4 C10"),
  "C14": ("TLC model checking of AdaptiveFee.tla (the FeeRateManager's nested loops with the skip optimisation, all start prices / limits / references / liquidity layouts of a toy line: every traded price "
          "unit is charged its own tick group's rate, stored accumulator of the end group, cap) + trace validation of every recorded swap on adaptive-fee pools (random valid constants, arbitrary non-decreasing clocks, zero-liquidity gaps, limits inside tick-group boundary "
          "ticks): the spec's UpdateReference / Acc / AdaptiveRate / TotalRate are evaluated per step for every tick group the step's price segment spans, and on the stored variables "
